@@ -31,7 +31,9 @@ def universe():
              "http://user@lemonde.fr/a", "http://user:pw@lemonde.fr/a", "http://user:@lemonde.fr/a", "http://localhost/a", "http://127.0.0.1:8080/a/b",
              "http://intranet/a", "http://a.intranet/a/b",
              # an ESCAPED pipe is data of a stem like any other escape (the raw one is the separator of serialized LRUs: C12 leaves it out)
-             "http://lemonde.fr/t/a%7Cb", "http://lemonde.fr/t/a%7cb/c"]
+             "http://lemonde.fr/t/a%7Cb", "http://lemonde.fr/t/a%7cb/c",
+             # an EMPTY port is written too ('t:' stem): not the URL without port
+             "http://lemonde.fr:/a", "http://lemonde.fr:", "http://1.2.3.4:/a"]
     return out + extra, core + extra
 
 
